@@ -479,6 +479,17 @@ func (txmp *TxMempool) addNewTransaction(wtx *WrappedTx, checkTxRes *abci.Respon
 		return
 	}
 
+	// The cache may have evicted a transaction that is still in the pool
+	// (cache smaller than the pool, or cache disabled): never hold it twice.
+	if elt, ok := txmp.txByKey[wtx.tx.Key()]; ok {
+		w := elt.Value.(*WrappedTx)
+		for id := range wtx.peers {
+			w.SetPeer(id)
+		}
+		txmp.logger.Debug("transaction already in the mempool, not adding it again", "tx", fmt.Sprintf("%X", wtx.tx.Hash()))
+		return
+	}
+
 	priority := checkTxRes.Priority
 	sender := checkTxRes.Sender
 
